@@ -493,9 +493,30 @@ class CFG:
         """True iff every entry->b path takes an edge implying an atom matching
         atom_pred with the given polarity (edge dominance)."""
         edges = self.guard_edges(atom_pred, polarity)
-        if not edges:
-            return False
-        return b not in self.reachable(0, skip_edges=edges)
+        if edges and b not in self.reachable(0, skip_edges=edges):
+            return True
+        # the test may be held in a named flag / temporary, or be decided by an earlier test on the same path
+        return self.guarded_any(b, [(atom_pred, polarity)])
+
+    def guarded_any(self, b, alternatives):
+        """True iff every entry->b path takes an edge implying one of the alternatives [(atom_pred, polarity), ...]"""
+        edges = [e for pred, pol in alternatives for e in self.guard_edges(pred, pol)]
+        if edges and b not in self.reachable(0, skip_edges=edges):
+            return True
+
+        def skip(s, d, struct, pol):
+            return entails_any(struct, pol, alternatives)
+        seen, complete = self.pathsens().run(0, skip=skip)
+        return complete and b not in seen
+
+    def pathsens(self):
+        if getattr(self, '_ps', None) is None:
+            self._ps = PathSens(self)
+        return self._ps
+
+    def reachable_ps(self, src=0, skip=None, skip_edges=(), no_exc=False):
+        """path-sensitive variant of reachable() (tracked flags and repeated tests are followed, see PathSens)"""
+        return self.pathsens().run(src, skip=skip, skip_edges=skip_edges, no_exc=no_exc)[0]
 
     def guards_of(self, b):
         """all (Atom, polarity) that edge-dominate b (informational)"""
@@ -551,3 +572,271 @@ def enclosing(node, types):
             return n
         n = getattr(n, '_parent', None)
     return None
+
+
+# ------------------------------------------------------------------------ path-sensitive reachability
+
+def _strip_links(e):
+    if isinstance(e, list):
+        return [_strip_links(x) for x in e]
+    if not isinstance(e, ast.AST):
+        return e
+    new = e.__class__()
+    for k, v in e.__dict__.items():
+        if k != '_parent':
+            setattr(new, k, _strip_links(v) if isinstance(v, (ast.AST, list)) else v)
+    return new
+
+
+class _SubstNames(ast.NodeTransformer):
+    def __init__(self, env):
+        self.env = env
+
+    def visit_Name(self, n):
+        if isinstance(n.ctx, ast.Load) and n.id in self.env:
+            return _strip_links(self.env[n.id])
+        return n
+
+    def _scoped(self, n):        # names bound by a comprehension / lambda shadow tracked locals
+        bound = set()
+        if isinstance(n, ast.Lambda):
+            bound = {a.arg for a in ast.walk(n.args) if isinstance(a, ast.arg)}
+        else:
+            for gen in n.generators:
+                bound |= {x.id for x in ast.walk(gen.target) if isinstance(x, ast.Name)}
+        if bound & set(self.env):
+            return _SubstNames({k: v for k, v in self.env.items() if k not in bound}).generic_visit(n)
+        return self.generic_visit(n)
+
+    visit_Lambda = visit_ListComp = visit_SetComp = visit_DictComp = visit_GeneratorExp = _scoped
+
+
+def _eval3(s, facts):
+    """three-valued value of a boolean structure under partial knowledge atom text -> bool"""
+    k = s[0]
+    if k == 'const':
+        return s[1]
+    if k == 'atom':
+        v = facts.get(s[1].text)
+        return None if v is None else (v == s[2])
+    if k == 'not':
+        v = _eval3(s[1], facts)
+        return None if v is None else not v
+    vals = [_eval3(it, facts) for it in s[1]]
+    if k == 'and':
+        if any(v is False for v in vals):
+            return False
+        return True if all(v is True for v in vals) else None
+    if any(v is True for v in vals):
+        return True
+    return False if all(v is False for v in vals) else None
+
+
+def _names_in(e):
+    return {n.id for n in ast.walk(e) if isinstance(n, ast.Name)}
+
+
+def struct_atoms(s, out=None):
+    out = {} if out is None else out
+    if s[0] == 'atom':
+        out.setdefault(s[1].text, s[1])
+    elif s[0] == 'not':
+        struct_atoms(s[1], out)
+    elif s[0] in ('and', 'or'):
+        for it in s[1]:
+            struct_atoms(it, out)
+    return out
+
+
+def entails_any(struct, pol, alternatives):
+    """does `struct == pol` force one of the alternatives [(atom_pred, polarity)] (checked over every assignment of the atoms)?"""
+    import itertools
+    atoms = struct_atoms(struct)
+    want = {t: w for t, a in atoms.items() for pred, w in alternatives if pred(a)}
+    if not want or len(atoms) > 10:
+        return False
+    names = sorted(atoms)
+    some = False
+    for vals in itertools.product([False, True], repeat=len(names)):
+        asg = dict(zip(names, vals))
+        if eval_struct(struct, asg) != pol:
+            continue
+        some = True
+        if not any(asg[t] == w for t, w in want.items()):
+            return False
+    return some
+
+
+class PathSens:
+    """Reachability in the product of the CFG with (a) the symbolic values of *tracked locals* (locals every binding of which is a
+    plain `name = expr`: flags, named conditions, temporaries) and (b) the truth values of test atoms already decided on the path.
+    A branch edge whose test -- after the tracked locals are replaced by their values -- is decided the other way by constants or
+    by an earlier test on the same path is infeasible and not followed.  Everything not tracked is left uninterpreted, so the
+    result over-approximates the feasible paths (a node reported unreachable is unreachable)."""
+    MAX_STATES = 20000
+    MAX_EXPR = 80
+
+    def __init__(self, g):
+        self.g = g
+        fn = g.fn
+        params = {a.arg for a in ast.walk(fn.args) if isinstance(a, ast.arg)}
+        simple, other = {}, set()
+        self.binds = {}
+        for n, st in g.stmt.items():
+            if st is None:
+                continue
+            b = set()
+            if isinstance(st, ast.Assign):
+                for t in st.targets:
+                    if isinstance(t, ast.Name) and len(st.targets) == 1:
+                        simple.setdefault(t.id, []).append(st)
+                        b.add(t.id)
+                    else:
+                        for x in ast.walk(t):
+                            if isinstance(x, ast.Name) and isinstance(x.ctx, ast.Store):
+                                other.add(x.id)
+                                b.add(x.id)
+            elif isinstance(st, (ast.AugAssign, ast.AnnAssign)):
+                for x in ast.walk(st.target):
+                    if isinstance(x, ast.Name):
+                        other.add(x.id)
+                        b.add(x.id)
+            elif isinstance(st, (ast.For, ast.AsyncFor)):
+                for x in ast.walk(st.target):
+                    if isinstance(x, ast.Name):
+                        other.add(x.id)
+                        b.add(x.id)
+            elif isinstance(st, (ast.With, ast.AsyncWith)):
+                for it in st.items:
+                    if it.optional_vars is not None:
+                        for x in ast.walk(it.optional_vars):
+                            if isinstance(x, ast.Name):
+                                other.add(x.id)
+                                b.add(x.id)
+            elif isinstance(st, ast.ExceptHandler) and st.name:
+                other.add(st.name)
+                b.add(st.name)
+            elif isinstance(st, (ast.FunctionDef, ast.AsyncFunctionDef, ast.ClassDef)):
+                other.add(st.name)
+                b.add(st.name)
+            elif isinstance(st, (ast.Import, ast.ImportFrom)):
+                for a in st.names:
+                    other.add((a.asname or a.name).split('.')[0])
+            for x in walk_own(st):
+                if isinstance(x, ast.NamedExpr) and isinstance(x.target, ast.Name):
+                    other.add(x.target.id)
+                    b.add(x.target.id)
+            self.binds[n] = b
+        # other kinds of binding (loop targets, `except .. as`, augmented assignments) end what is known about the name at their
+        # node (self.binds); only names a nested function can rebind behind the analysis' back are not tracked at all
+        shared_scope = set()
+        for x in ast.walk(fn):
+            if isinstance(x, (ast.Global, ast.Nonlocal)):
+                shared_scope.update(x.names)
+        self.tracked = {n for n in simple if n not in shared_scope}
+        # atoms that are evaluated by more than one test (directly or through the value of a tracked local): only their truth
+        # values are remembered along a path
+        count = {}
+
+        def occ(e, depth=0):
+            for at, _ in all_atoms(e):
+                count[at.text] = count.get(at.text, 0) + 1
+            if depth < 3:
+                for nm in _names_in(e) & self.tracked:
+                    for d in simple[nm]:
+                        occ(d.value, depth + 1)
+        for st in g.stmt.values():
+            if isinstance(st, (ast.If, ast.While, ast.Assert)):
+                occ(st.test)
+        self.shared = {a for a, c in count.items() if c > 1}
+
+    def subst(self, e, env):
+        if not env or not (_names_in(e) & set(env)):
+            return e
+        return _SubstNames(env).visit(_strip_links(e))
+
+    def run(self, src=0, skip=None, skip_edges=(), no_exc=False, env=None, facts=None):
+        """-> (set of reachable nodes, complete?)   skip(s, d, structure, polarity) -> True: do not follow this branch edge"""
+        g = self.g
+        static_skip = set(skip_edges)
+        env0 = dict(env or {})
+        facts0 = dict(facts or {})
+
+        def key(n, env, facts):
+            return (n, tuple(sorted((k, unparse(v)) for k, v in env.items())), tuple(sorted(facts.items())))
+        seen_states = set()
+        seen_nodes = set()
+        stack = [(src, env0, facts0)]
+        while stack:
+            n, env, facts = stack.pop()
+            k = key(n, env, facts)
+            if k in seen_states:
+                continue
+            seen_states.add(k)
+            seen_nodes.add(n)
+            if len(seen_states) > self.MAX_STATES:
+                return g.reachable(src, skip_edges=static_skip, no_exc=no_exc), False
+            st = g.stmt[n]
+            # state after the statement completed normally
+            env_after, facts_after = env, facts
+            b = self.binds.get(n, ())
+            if b:
+                env_after = {k2: v for k2, v in env.items() if k2 not in b and not (_names_in(v) & b)}
+                facts_after = {a: v for a, v in facts.items() if not any(_mentions(a, nm) for nm in b)}
+                if isinstance(st, ast.Assign) and len(st.targets) == 1 and isinstance(st.targets[0], ast.Name) and st.targets[0].id in self.tracked:
+                    val = self.subst(st.value, env)
+                    if sum(1 for _ in ast.walk(val)) <= self.MAX_EXPR and st.targets[0].id not in _names_in(val):
+                        env_after = dict(env_after)
+                        env_after[st.targets[0].id] = val
+            elif isinstance(st, (ast.Assign, ast.AugAssign)):
+                # attribute / item store: forget what was known about expressions that mention the target
+                tg = [unparse(t) for t in (st.targets if isinstance(st, ast.Assign) else [st.target]) if isinstance(t, (ast.Attribute, ast.Subscript))]
+                if tg:
+                    facts_after = {a: v for a, v in facts.items() if not any(t in a for t in tg)}
+                    env_after = {k2: v for k2, v in env.items() if not any(t in unparse(v) for t in tg)}
+            for d in g.succ[n]:
+                if (n, d) in static_skip:
+                    continue
+                exc = (n, d) in g.exc_edges
+                if exc and no_exc:
+                    continue
+                lab = g.label.get((n, d))
+                if exc:
+                    stack.append((d, env, facts))
+                    continue
+                if lab is None or isinstance(lab[0], str):
+                    stack.append((d, env_after, facts_after))
+                    continue
+                test, pol = lab
+                s = literals(self.subst(test, env))
+                v = _eval3(s, facts)
+                if v is not None and v != pol:
+                    continue
+                if skip is not None:
+                    # the guard may be recognisable in the test as written, with only the named conditions replaced, or with
+                    # every tracked local replaced by its value
+                    variants = [s]
+                    if env and (_names_in(test) & set(env)):
+                        variants.append(literals(test))
+                        flags = {k2: v for k2, v in env.items() if _is_condition(v)}
+                        if flags and len(flags) != len(env):
+                            variants.append(literals(self.subst(test, flags)))
+                    if any(skip(n, d, v, pol) for v in variants):
+                        continue
+                nf = facts
+                add = [(at.text, p) for at, p in _implied(s, pol) if at.text in self.shared]
+                if add:
+                    nf = dict(facts)
+                    nf.update(add)
+                stack.append((d, env, nf))
+        return seen_nodes, True
+
+
+def _is_condition(v):
+    return isinstance(v, (ast.Compare, ast.BoolOp)) or (isinstance(v, ast.UnaryOp) and isinstance(v.op, ast.Not)) or \
+        (isinstance(v, ast.Constant) and (isinstance(v.value, bool) or v.value is None))
+
+
+def _mentions(text, name):
+    import re
+    return re.search(r'(?<![\w.])%s(?!\w)' % re.escape(name), text) is not None
